@@ -345,6 +345,8 @@ func c20Worker(args []string) int {
 			}
 			if wireLen > adv && !got.Truncated {
 				fail("%s: UDP reply of %d bytes exceeds the advertised %d without TC", label, wireLen, adv)
+			} else if wireLen > adv {
+				fail("%s: truncated UDP reply (TC set) of %d bytes still exceeds the advertised %d; query %s", label, wireLen, adv, oneLine(q))
 			}
 		}
 	}
@@ -422,10 +424,15 @@ func c20Worker(args []string) int {
 		name string
 		t    uint16
 	}{{"big.example.com.", dns.TypeTXT}, {"x.manyns.example.com.", dns.TypeA}, {"manyns.example.com.", dns.TypeNS}} {
-		for _, sz := range []int{-1, 512, 1232, 4096} {
+		for si, sz := range []int{-1, 512, 1232, 4096, 512, 700, 1232, 1500} {
 			q := harness.MakeQuery(bq.name, bq.t, 88)
 			if sz > 0 {
-				harness.AddECS(q, "", uint16(sz))
+				ecs := ""
+				if si >= 4 { // with a client-subnet option, which the reply echoes: it counts against the buffer too
+					ecs = []string{"198.51.1.0/24", "2001:db8:e1::/48"}[si%2]
+					sum.Counts["oversized_queries_with_client_subnet"]++
+				}
+				harness.AddECS(q, ecs, uint16(sz))
 			}
 			compare(q, false, "big-udp")
 			got, wl, err := c20Exchange(addr, false, q.Copy())
@@ -505,7 +512,7 @@ func oneLine(m *dns.Msg) string {
 }
 
 func runC20(r *report.Run) {
-	r.SetRule("a real fbserver.Server on a loopback port (UDP+TCP) per configuration {backend x whoami domain set/unset x refuse-any on/off x max-answer 1/3/8 x 127.0.0.1/::1, plus servers bound to two addresses with different max-answer settings}, race-detector build, child process each; generated queries (names of a generated file, standard and ANY types, one in five with a class other than IN, no EDNS / 512 / 1232 / 4096, with and without ECS) sent with a DNS client over UDP and TCP; every reply is compared canonically with the bare FBDNSDB handler on the same database, remote address and max-answer (addresses reduced to owner+type); oversized answers (40 TXT / 40 NS with glue) must come back with TC over UDP within the advertised size (actual datagram length) and complete over TCP; ANY with refusal must be exactly the synthesized HINFO; whoami-domain queries (any letter case) must be answered by the whoami handler, names below and next to the whoami domain by the database; question-less messages (QDCOUNT=0, and bare headers claiming QDCOUNT=1 with and without ARCOUNT=1, which the DNS library lets through to the front handlers) must get a failure rcode and the server must keep answering; shutdown is performed under load. non-trivial = configuration whose exchanges include a truncated reply and a TCP reply; distinct by configuration")
+	r.SetRule("a real fbserver.Server on a loopback port (UDP+TCP) per configuration {backend x whoami domain set/unset x refuse-any on/off x max-answer 1/3/8 x 127.0.0.1/::1, plus servers bound to two addresses with different max-answer settings}, race-detector build, child process each; generated queries (names of a generated file, standard and ANY types, one in five with a class other than IN, no EDNS / 512 / 1232 / 4096, with and without ECS) sent with a DNS client over UDP and TCP; every reply is compared canonically with the bare FBDNSDB handler on the same database, remote address and max-answer (addresses reduced to owner+type); oversized answers (40 TXT / 40 NS with glue, also asked with a client-subnet option) must come back with TC over UDP within the advertised size (actual datagram length; a truncated reply has to fit too) and complete over TCP; ANY with refusal must be exactly the synthesized HINFO; whoami-domain queries (any letter case) must be answered by the whoami handler, names below and next to the whoami domain by the database; question-less messages (QDCOUNT=0, and bare headers claiming QDCOUNT=1 with and without ARCOUNT=1, which the DNS library lets through to the front handlers) must get a failure rcode and the server must keep answering; shutdown is performed under load. non-trivial = configuration whose exchanges include a truncated reply and a TCP reply; distinct by configuration")
 	r.Assume("loopback only; the harness picks a port free for UDP and TCP and retries on bind failure")
 	var cfgs []c20Config
 	i := 0
